@@ -93,6 +93,10 @@ def main():
             rc_t, out_t = sh([PY, "-m", "pytest", "-q", "-p", "no:cacheprovider", "test"], cwd=d, env=env, timeout=900)
             tests_pass = rc_t == 0
             # run copies of the demo that sit next to the tree they are meant to exercise
+            import glob
+            helpers = [h for h in glob.glob(os.path.join(src, "*.py")) if not os.path.basename(h).startswith("demo_")]
+            for h in helpers:
+                shutil.copy(h, d)
             shutil.copy(demo, os.path.join(d, "demo_under_test.py"))
             rc_bad, out_bad = sh([PY, "demo_under_test.py"], cwd=d, env=env, timeout=600)
             good = "/var/tmp/seedeval/%s-%d-clean" % (pid, k)
@@ -100,6 +104,8 @@ def main():
             os.makedirs(good)
             shutil.copytree("/repo/canopen", good + "/canopen")
             shutil.copytree("/repo/test", good + "/test")
+            for h in helpers:
+                shutil.copy(h, good)
             shutil.copy(demo, os.path.join(good, "demo_under_test.py"))
             env0 = dict(os.environ, PYTHONPATH=good, PYTHONDONTWRITEBYTECODE="1")
             rc_good, out_good = sh([PY, "demo_under_test.py"], cwd=good, env=env0, timeout=600)
@@ -128,6 +134,8 @@ def main():
             os.makedirs(dest, exist_ok=True)
             shutil.copy(patch, os.path.join(dest, "patch.diff"))
             shutil.copy(demo, os.path.join(dest, "demo.py"))
+            for h in helpers:
+                shutil.copy(h, dest)
             # the agent's own description of this change
             sect = ""
             if notes:
